@@ -62,12 +62,38 @@ type lbvcCrashRun struct {
 	inflight  map[int64]string
 	mayLose   func(off int64) bool
 	images    []*lbvcCrashImage
-	hits      map[string]int
-	desc      string
-	next      int
+	hits        map[string]int
+	desc        string
+	next        int
+	sizesBefore map[string]int64
+}
+
+func lbvcFileSizes(dir string) map[string]int64 {
+	out := map[string]int64{}
+	ents, _ := os.ReadDir(dir)
+	for _, e := range ents {
+		if fi, err := e.Info(); err == nil {
+			out[e.Name()] = fi.Size()
+		}
+	}
+	return out
 }
 
 func (r *lbvcCrashRun) hook(name string) {
+	r.hookImage(name, -1)
+	if name == "append:log-written" && r.sizesBefore != nil {
+		// the write of the log bytes is not atomic either: the process can die after any prefix of it
+		keeps := []int64{1, 27, 29}
+		if os.Getenv("LBVC_TIER") == "thorough" {
+			keeps = []int64{1, 10, 27, 28, 29, 45}
+		}
+		for _, keep := range keeps {
+			r.hookImage(name+fmt.Sprintf("(torn after %d bytes)", keep), keep)
+		}
+	}
+}
+
+func (r *lbvcCrashRun) hookImage(name string, tornKeep int64) {
 	r.hits[name]++
 	img := &lbvcCrashImage{point: name, hit: r.hits[name], completed: map[int64]string{}, inflight: map[int64]string{}, mayLose: r.mayLose, desc: r.desc}
 	for k, v := range r.completed {
@@ -79,6 +105,24 @@ func (r *lbvcCrashRun) hook(name string) {
 	img.hw = r.l.hw // (the log mutex may be held by the caller of the crash point)
 	img.dir = filepath.Join(r.root, fmt.Sprintf("img-%d", len(r.images)))
 	lbvcCopyDir(r.dir, img.dir)
+	if tornKeep >= 0 {
+		torn := false
+		for name, sz := range lbvcFileSizes(img.dir) {
+			if !strings.HasSuffix(name, ".log") && !strings.Contains(name, ".log.") {
+				continue
+			}
+			before, ok := r.sizesBefore[name]
+			if ok && sz > before && before+tornKeep < sz {
+				os.Truncate(filepath.Join(img.dir, name), before+tornKeep)
+				torn = true
+			}
+		}
+		if !torn {
+			os.RemoveAll(img.dir)
+			r.hits[name]--
+			return
+		}
+	}
 	r.images = append(r.images, img)
 }
 
@@ -91,8 +135,10 @@ func (r *lbvcCrashRun) append(key string, epoch uint64) {
 	r.next++
 	off := r.l.NewestOffset() + 1
 	r.inflight = map[int64]string{off: key + "=" + val}
+	r.sizesBefore = lbvcFileSizes(r.dir)
 	offs, err := r.l.Append([]*Message{{MagicByte: 1, Key: k, Value: []byte(val), Timestamp: int64(100 + r.next), LeaderEpoch: epoch}})
 	r.inflight = map[int64]string{}
+	r.sizesBefore = nil
 	if err == nil && len(offs) == 1 {
 		r.completed[offs[0]] = key + "=" + val
 	}
@@ -129,7 +175,16 @@ func lbvcReadImage(l *commitLog) (offs []int64, vals []string, err error) {
 }
 
 // check one crash image; returns what is wrong, or ""
-func lbvcCheckImage(img *lbvcCrashImage, opts Options) string {
+func lbvcCheckImage(img *lbvcCrashImage, opts Options) (bad string) {
+	defer func() {
+		if r := recover(); r != nil {
+			msg := fmt.Sprint(r)
+			if len(msg) > 200 {
+				msg = msg[:200]
+			}
+			bad = fmt.Sprintf("%s, crash at %s (hit %d): using the reopened log panics: %s", img.desc, img.point, img.hit, msg)
+		}
+	}()
 	opts.Path = img.dir
 	lg, err := New(opts)
 	if err != nil {
@@ -253,7 +308,7 @@ func TestLbvcBoundedCrash(t *testing.T) {
 	points := map[string]bool{}
 	var firstBad, sample string
 	badByPoint := map[string]string{}
-	workloads := []string{"append", "truncate", "compact", "retention"}
+	workloads := []string{"append", "truncate", "truncate-to-zero", "truncate-at-segment-base", "compact", "retention"}
 	for _, wl := range workloads {
 		for _, seg := range segSizes {
 			run := &lbvcCrashRun{t: t, root: filepath.Join(root, fmt.Sprintf("%s-%d", wl, seg)), completed: map[int64]string{}, inflight: map[int64]string{}, hits: map[string]int{}}
@@ -281,9 +336,18 @@ func TestLbvcBoundedCrash(t *testing.T) {
 					run.l.checkpointHW()
 				}
 			}
+			cuts := []int64{7, 4}
 			switch wl {
-			case "truncate":
-				for _, cut := range []int64{7, 4} {
+			case "truncate-to-zero":
+				cuts = []int64{0}
+			case "truncate-at-segment-base":
+				if segs := run.l.Segments(); len(segs) >= 3 {
+					cuts = []int64{segs[len(segs)-2].BaseOffset, segs[1].BaseOffset}
+				}
+			}
+			switch wl {
+			case "truncate", "truncate-to-zero", "truncate-at-segment-base":
+				for _, cut := range cuts {
 					c := cut
 					run.mayLose = func(off int64) bool { return off >= c }
 					run.l.Truncate(c)
